@@ -43,8 +43,13 @@ impl Parse for WherePredicatesOrBool {
             return Self::from_lit(&lit);
         }
 
-        if let Ok(_star) = input.parse::<Token![*]>() {
-            return Ok(Self::All);
+        // a lone `*`; a predicate list may itself start with `*` (`*const T: Trait`)
+        if let Some((punct, rest)) = input.cursor().punct() {
+            if punct.as_char() == '*' && rest.eof() {
+                input.parse::<Token![*]>()?;
+
+                return Ok(Self::All);
+            }
         }
 
         Ok(Self::WherePredicates(input.parse_terminated(WherePredicate::parse, Token![,])?))
